@@ -892,11 +892,11 @@ func (f *framer) readTypeInfo() TypeInfo {
 		n := f.readShort()
 		tuple := TupleTypeInfo{
 			NativeType: simple,
-			Elems:      make([]TypeInfo, n),
+			Elems:      make([]TypeInfo, 0, f.boundedCount(int(n), 2)),
 		}
 
 		for i := 0; i < int(n); i++ {
-			tuple.Elems[i] = f.readTypeInfo()
+			tuple.Elems = append(tuple.Elems, f.readTypeInfo())
 		}
 
 		return tuple
@@ -909,11 +909,12 @@ func (f *framer) readTypeInfo() TypeInfo {
 		udt.Name = f.readString()
 
 		n := f.readShort()
-		udt.Elements = make([]UDTField, n)
+		udt.Elements = make([]UDTField, 0, f.boundedCount(int(n), 4))
 		for i := 0; i < int(n); i++ {
-			field := &udt.Elements[i]
+			var field UDTField
 			field.Name = f.readString()
 			field.Type = f.readTypeInfo()
+			udt.Elements = append(udt.Elements, field)
 		}
 
 		return udt
@@ -962,9 +963,12 @@ func (f *framer) parsePreparedMetadata() preparedMetadata {
 
 	if f.proto >= protoVersion4 {
 		pkeyCount := f.readInt()
-		pkeys := make([]int, pkeyCount)
+		if pkeyCount < 0 {
+			panic(fmt.Errorf("received negative primary key count: %d", pkeyCount))
+		}
+		pkeys := make([]int, 0, f.boundedCount(pkeyCount, 2))
 		for i := 0; i < pkeyCount; i++ {
-			pkeys[i] = int(f.readShort())
+			pkeys = append(pkeys, int(f.readShort()))
 		}
 		meta.pkeyColumns = pkeys
 	}
@@ -1792,6 +1796,16 @@ func (f *framer) writeRegisterFrame(streamID int, w *writeRegisterFrame) error {
 	return f.finish()
 }
 
+// boundedCount limits a count announced by the peer to the number of
+// elements of at least minSize bytes that the rest of the body can hold. It
+// is used to size allocations only; reading past the body still fails.
+func (f *framer) boundedCount(n, minSize int) int {
+	if max := len(f.buf) / minSize; n > max {
+		return max
+	}
+	return n
+}
+
 func (f *framer) readByte() byte {
 	if len(f.buf) < 1 {
 		panic(fmt.Errorf("not enough bytes in buffer to read byte require 1 got: %d", len(f.buf)))
@@ -1859,9 +1873,9 @@ func (f *framer) readUUID() *UUID {
 func (f *framer) readStringList() []string {
 	size := f.readShort()
 
-	l := make([]string, size)
+	l := make([]string, 0, f.boundedCount(int(size), 2))
 	for i := 0; i < int(size); i++ {
-		l[i] = f.readString()
+		l = append(l, f.readString())
 	}
 
 	return l
@@ -1939,7 +1953,7 @@ func (f *framer) readConsistency() Consistency {
 
 func (f *framer) readBytesMap() map[string][]byte {
 	size := f.readShort()
-	m := make(map[string][]byte, size)
+	m := make(map[string][]byte, f.boundedCount(int(size), 6))
 
 	for i := 0; i < int(size); i++ {
 		k := f.readString()
@@ -1952,7 +1966,7 @@ func (f *framer) readBytesMap() map[string][]byte {
 
 func (f *framer) readStringMultiMap() map[string][]string {
 	size := f.readShort()
-	m := make(map[string][]string, size)
+	m := make(map[string][]string, f.boundedCount(int(size), 4))
 
 	for i := 0; i < int(size); i++ {
 		k := f.readString()
